@@ -244,7 +244,8 @@ Theorem nothing_below_nonexistent :
 Proof. exact Proofs_Shared.nothing_below_nonexistent. Qed.
 Print Assumptions nothing_below_nonexistent.
 
-(* shared_state_sound: for every well-formed zone, every pair of entry limits and every history — any
+(* shared_state_sound (NSEC entries and, since wave 5, the NSEC3 ring with its conflict quarantine): for every
+   well-formed zone, every pair of entry limits and every history — any
    order of client exchanges (CD / ECS or not, any downstream answer) and clock advances, hence any order
    in which proofs are admitted to, replaced in, evicted from and expire from the index and the cut
    cache — in which whatever the local validator marks validated + aggressive-eligible consists of
@@ -252,32 +253,42 @@ Print Assumptions nothing_below_nonexistent.
    every denial Cache.ServeDNS synthesizes goes to a request without CD and without ECS and is true of
    the zone (NXDOMAIN => the name does not exist in any of the five ways; NOERROR => NODATA is true) *)
 Theorem shared_state_sound :
-  forall z, zone_wf z -> forall lim maxttl h now,
-  history_honest z h ->
-  forall q qtype cd ecs rc, In (q, qtype, cd, ecs, Some rc) (shared_run z lim maxttl shared_empty now h) ->
+  forall z, zone_wf z -> forall lim maxttl H hashed tab,
+  nsec3_world H z hashed tab -> optout_masks_are_bit0 ->      (* NSEC3 ring: injective hash, given to the model as tab *)
+  forall h now,
+  history_honest z H hashed h ->
+  forall q qtype cd ecs rc, In (q, qtype, cd, ecs, Some rc) (shared_run z lim maxttl tab shared_empty now h) ->
     cd = false /\ ecs = false /\
     ((rc = 3 /\ ~ exists_in z q) \/ (rc = 0 /\ nodata_true z q qtype)).
-Proof. exact (fun z Hwf lim maxttl h now Hh =>
-  shared_history_sound z Hwf lim maxttl h shared_empty now (inv_empty z) Hh). Qed.
+Proof. exact (fun z Hwf lim maxttl H hashed tab Hw Hm h now Hh =>
+  shared_history_sound z Hwf lim maxttl H hashed tab Hw Hm h shared_empty now (inv_empty z H hashed) Hh). Qed.
 Print Assumptions shared_state_sound.
 
 (* a denial needs an earlier admission: nothing is synthesized while the zone has no SOA entry and no cut *)
 Theorem shared_needs_admission :
-  forall z lim maxttl now q qtype cd ecs ds st,
-  sh_soa st = None -> sh_cuts st = [] -> snd (exchange lim maxttl st now (z_apex z) q qtype cd ecs ds) = None.
-Proof. exact (fun z lim maxttl now q qtype cd ecs ds st => exchange_needs_admission z lim maxttl now q qtype cd ecs ds st). Qed.
+  forall z lim maxttl tab now q qtype cd ecs ds st,
+  sh_soa st = None -> sh_cuts st = [] -> snd (exchange lim maxttl tab st now (z_apex z) q qtype cd ecs ds) = None.
+Proof. exact (fun z lim maxttl tab now q qtype cd ecs ds st => exchange_needs_admission z lim maxttl tab now q qtype cd ecs ds st). Qed.
 Print Assumptions shared_needs_admission.
 
 (* admission only with local provenance that is aggressive-eligible, CD=0 in request and response, no
-   ECS: anything else leaves the shared state exactly as it was *)
+   ECS: anything else leaves the shared state (NSEC entries, NSEC3 ring, quarantine, cuts) exactly as it was *)
 Theorem shared_admission_guarded :
   forall z lim maxttl st now q cd ecs ds,
   match ds with DsPositive => True
-              | DsNegative _ _ _ marked aggressive res_cd =>
+              | DsNegative _ _ _ marked aggressive res_cd | DsNegative3 _ _ _ marked aggressive res_cd =>
                   negb ecs && negb cd && negb res_cd && marked && aggressive = false end ->
   admit_downstream lim maxttl st now (z_apex z) q cd ecs ds = st.
 Proof. exact (fun z lim maxttl st now q cd ecs ds => admit_downstream_guard z lim maxttl st now q cd ecs ds). Qed.
 Print Assumptions shared_admission_guarded.
+
+(* the conflict quarantine: while a tombstone of the ring is active, no NSEC3 bundle is admitted and the ring
+   synthesizes nothing (an answer of the evaluator is discarded) *)
+Theorem shared_quarantine_blocks :
+  forall lim st now zone q rs e u, sh_tomb st = Some u -> (now < u)%Z ->
+  record_index3 lim st now zone q rs e = st.
+Proof. exact quarantine_blocks_admission. Qed.
+Print Assumptions shared_quarantine_blocks.
 
 (* ---- the byte-level label functions of internal/dnsname, as srcgen translates them from the source on
    every run (Gen.C02.go_compareDecodedFold / go_decodeOctet / go_equalFold), are the model's label order
